@@ -182,6 +182,10 @@ def random_clifford_ops(rng, n, length, non_clifford=False, extended=False):
             ops.append((rng.choice(two), [a, b]))
         else:
             ops.append((rng.choice(one), [rng.randrange(n)]))
+    if extended and rng.random() < 0.6:
+        # a parameterised gate where its parameter matters: on a qubit that has just been put into |+>
+        q = rng.randrange(n)
+        ops[0:0] = [("h", [q]), (rng.choice(["rz", "p"]), [q], [], [HALF_PI * rng.randrange(4)])]
     if non_clifford:
         ops.insert(rng.randrange(len(ops) + 1), ("t", [rng.randrange(n)]))
     return ops
